@@ -536,6 +536,8 @@ func sumDo(c *hx.Ctx, sc gen.SumScenario, b *sumBudget, wantModel bool) *gen.Sum
 	if c.ID == "C13" { // C13 only: the oracle of known finding K10 (c13k10.go)
 		msg, shape, bad := sumAfterSecurity(run)
 		c.Check(sumAfterSecurityName, !bad, shape, sumIn{sumAfterSecurityName, sc}, msg)
+		msg, bad = sumOneTimeline(run)
+		c.Check(sumOneTimelineName, !bad, "", sumIn{sumOneTimelineName, sc}, msg)
 	}
 	c.Count("scenario:" + strings.SplitN(sc.Note, " ", 2)[0])
 	c.Count(fmt.Sprintf("H=%d", sc.H))
@@ -1029,6 +1031,8 @@ func runC01(c *hx.Ctx) {
 			sumDo(c, sc, budget, k < 2 && b%6 == 0)
 		}
 	}
+	// oracle-only: honest big logs (tile number 1000 and beyond)
+	sumBigLogs(c)
 }
 
 func sumClasses(run *gen.SumRun) []string {
@@ -1051,6 +1055,11 @@ func replaySum(raw json.RawMessage) (bool, string) {
 	if in.Oracle == sumAfterSecurityName {
 		if msg, _, bad := sumAfterSecurity(run); bad {
 			fails = append(fails, sumFail{sumAfterSecurityName, msg})
+		}
+	}
+	if in.Oracle == sumOneTimelineName {
+		if msg, bad := sumOneTimeline(run); bad {
+			fails = append(fails, sumFail{sumOneTimelineName, msg})
 		}
 	}
 	for _, f := range fails {
